@@ -413,6 +413,30 @@ func vShorthandsVsLonghands() (int, []string) {
 			}
 		}
 	}
+	// css-lists-3 §4.4: `none` in the list-style shorthand goes to whichever of list-style-type / list-style-image is
+	// not given otherwise, to both when neither is
+	for _, pair := range [][2]string{
+		{"list-style: none", "list-style-type: none"}, // the image is reset to its initial value, which is none
+		{"list-style: none none", "list-style-type: none; list-style-image: none"},
+		{"list-style: none url(a.png)", "list-style-type: none; list-style-image: url(a.png)"},
+		{"list-style: url(a.png) none", "list-style-type: none; list-style-image: url(a.png)"},
+		{"list-style: inside url(a.png) none", "list-style-type: none; list-style-image: url(a.png); list-style-position: inside"},
+		{"list-style: none inside url(a.png)", "list-style-type: none; list-style-image: url(a.png); list-style-position: inside"},
+		{"LIST-STYLE: INSIDE NONE", "list-style-type: none; list-style-position: inside"},
+		{"list-style: none square", "list-style-type: square; list-style-image: none"},
+		{"list-style: square none", "list-style-type: square; list-style-image: none"},
+	} {
+		n++
+		got, want := vDeclared(pair[0]), vDeclared(pair[1])
+		if len(want) < 1 || len(got) != 3 {
+			fail("%q: %d longhands understood, the shorthand sets %d longhands (3 expected)", pair[1], len(want), len(got))
+		}
+		for k, w := range want {
+			if g, ok := got[k]; !ok || !reflect.DeepEqual(g, w) {
+				fail("%q: %s is %v, the longhand gives %v", pair[0], k, g, w)
+			}
+		}
+	}
 	// spelling: keywords, units and property names are ASCII case-insensitive (CSS Syntax 3 §4, css-values §3.1):
 	// the upper-case spelling of a declaration assigns what the lower-case spelling assigns, and something
 	for _, text := range []string{
@@ -435,7 +459,7 @@ func vShorthandsVsLonghands() (int, []string) {
 	return n, fails
 }
 
-//@ bounded vShorthandsVsLonghands 8 shorthands x every subset and order of their components x 3 spellings, 192 one- to three-layer background shorthands, border-radius with 1-4 horizontal and 0-4 vertical radii and three four-sides shorthands with 1-4 values, against the equivalent longhand declarations; 9 flex shorthands and 1 512 border-image shorthands (every width list of 1-3 values over a length, a percentage, auto and a number) against their longhands; 27 declarations in upper case against their lower-case spelling
+//@ bounded vShorthandsVsLonghands 8 shorthands x every subset and order of their components x 3 spellings, 192 one- to three-layer background shorthands, border-radius with 1-4 horizontal and 0-4 vertical radii and three four-sides shorthands with 1-4 values, against the equivalent longhand declarations; 9 flex shorthands, 9 list-style shorthands with `none` and 1 512 border-image shorthands (every width list of 1-3 values over a length, a percentage, auto and a number) against their longhands; 27 declarations in upper case against their lower-case spelling
 //@   props C08
 
 // border-radius: the index reads of the two radius lists are safe (each list holds exactly four values
